@@ -399,10 +399,14 @@ func mkProfile(p *wProf) *agd.Profile {
 	if p.Deleted {
 		bits |= 1 << 4
 	}
+	sched := int(h >> 9)
+	if p.SchedSel > 0 {
+		sched = p.SchedSel - 1
+	}
 	return buildProfile(profSpec{
 		ID: p.ID, DeviceIDs: append([]agd.DeviceID(nil), p.Devs...),
 		TTL:      time.Duration(p.Ver) * time.Second,
-		Blocking: int(h >> 3), Access: accessIdxOf(p), Ratelimit: int(h >> 7), Schedule: int(h >> 9),
+		Blocking: int(h >> 3), Access: accessIdxOf(p), Ratelimit: int(h >> 7), Schedule: sched,
 		Custom: int(h >> 11), Services: int(h >> 13), RuleLists: int(h >> 15), Bits: bits,
 	})
 }
